@@ -64,7 +64,7 @@ PLAN = {
         'note': COMMON_TRUST + 'include_from_dictionary is T2 (assumed contract); split and search_corrected are proved (units split, phon); sort assumed to be a function of the ranked values; "other contexts in the same process" rests on safe Rust aliasing + the scan for process-wide state.',
     },
     'C06': {
-        'bounded': ['fixed_rules', 'fixed_api'], 'static': ['context_glue'],
+        'bounded': ['fixed_rules', 'fixed_api', 'update_engine'], 'static': ['context_glue'],
         'level': 'proof',
         'units': ['fixed_session', 'fixed_pkv_common', 'pmeth', 'rank', 'phon', 'layout_get'],
         'technique': 'Verus postconditions: reset state after terminating events, truthful session flag, strictly decreasing measure, wf invariant (idle => no raw keys; scratch list overwritten before read)',
@@ -168,7 +168,7 @@ PLAN = {
         'note': COMMON_TRUST + 'The two five-line regions are no longer abstracted: the closure body (Rank::emoji_ranked(format!(...), r)) is verified against its ensures; the rewrites are mechanical (D14: the closure is bound to a local and its tuple pattern opened by a let, because Verus cannot quantify over an anonymous closure). Assumed (T3): std contracts for Iterator::zip / map (vstd), Vec::extend over a Map (applies the closure front to back and appends), RangeFrom<u8> yields start, start+1, ...; the emojicon crate (two constant tables, three look-ups: unit data proves that Data::new stores the constant tables whatever the configuration and that the three Data look-ups pass the word on unchanged to the table of the method) with the data precondition of fewer than 256 emoji per name, validated on the emojicon sources by tools/data_pre.py.',
     },
     'C19': {
-        'kani': ['k_ffi_config_lifecycle', 'k_ffi_null_free', 'k_keycode_to_char'], 'miri': ['ffi_life_cycles'], 'ffi_native': ['ffi_life_cycles_native'],
+        'kani': ['k_ffi_config_lifecycle', 'k_ffi_null_free', 'k_keycode_to_char'], 'miri': ['ffi_life_cycles'], 'ffi_native': ['ffi_life_cycles_native'], 'static': ['no_shared_state'],
         'level': 'proof',
         'units': ['layout'],
         'technique': 'Kani harnesses on the real unsafe FFI code (complete finite proofs) + Verus NUL-freedom of key characters; Miri-executed life cycles as bounded stand-in for strings, context handles and leaks',
